@@ -43,7 +43,23 @@ func RandomWithLits(rng *rand.Rand, nIn, nInstr, fieldBits int) *Program {
 func finish(rng *rand.Rand, p *Program, nreg, nIn, nInstr, fieldBits int) *Program {
 	var bools []int
 	pick := func() int { return rng.IntN(nreg) }
+	// scaled: registers that are a boolean register times / plus a constant (same wire with
+	// another coefficient in the sparse builder); feeding them to boolean operations checks
+	// that "already constrained boolean" bookkeeping is per value, not per wire
+	var scaled []int
+	isBool := func(r int) bool {
+		for _, b := range bools {
+			if b == r {
+				return true
+			}
+		}
+		return false
+	}
+	isLit := func(r int) bool { return r < len(p.Inputs) && p.Inputs[r] == Const }
 	pickBool := func() int {
+		if len(scaled) > 0 && rng.IntN(8) == 0 {
+			return scaled[rng.IntN(len(scaled))]
+		}
 		if len(bools) > 0 && rng.IntN(10) < 9 {
 			return bools[rng.IntN(len(bools))]
 		}
@@ -93,8 +109,37 @@ func finish(rng *rand.Rand, p *Program, nreg, nIn, nInstr, fieldBits int) *Progr
 				}
 			}
 		}
+		if len(bools) > 0 && len(p.Lits) > 0 && rng.IntN(7) == 0 {
+			// boolean register times a literal constant
+			lit := -1
+			for k := range p.Inputs {
+				if isLit(k) && (lit < 0 || rng.IntN(2) == 0) {
+					lit = k
+				}
+			}
+			if lit >= 0 {
+				in = Instr{Op: "Mul", Args: []int{bools[rng.IntN(len(bools))], lit}}
+				if rng.IntN(2) == 0 {
+					in.Args[0], in.Args[1] = in.Args[1], in.Args[0]
+				}
+				op = "Mul"
+			}
+		}
 		p.Instrs = append(p.Instrs, in)
 		n := NbResults(in)
+		if (op == "Mul" || op == "Neg" || op == "Add" || op == "Sub") && len(in.Args) >= 1 {
+			nb, nl := 0, 0
+			for _, a := range in.Args {
+				if isBool(a) {
+					nb++
+				} else if isLit(a) {
+					nl++
+				}
+			}
+			if nb == 1 && nb+nl == len(in.Args) {
+				scaled = append(scaled, nreg)
+			}
+		}
 		switch op {
 		case "ToBinary", "Xor", "Or", "And", "IsZero":
 			for k := 0; k < n; k++ {
